@@ -24,7 +24,7 @@ func (c *Ctx) newStreamEmit() *EmitSite {
 // ruleAllocSendAtomic (C08.1) + C08.2 + C08.3.
 func ruleClientIDs(c *Ctx, r1, r2, r3 string) {
 	c.rule(r1, "one mutex is held continuously across the call that allocates the stream id and the carrier send of new_stream, so ids reach the wire in increasing order")
-	c.rule(r2, "the id counter is written only by +1 in the allocation function under the channel mutex; the stream's id is the post-increment value; a test for counter overflow precedes the increment and fails the RPC")
+	c.rule(r2, "the id counter is written only by +1 in the allocation function under the channel mutex; the stream's id is the post-increment value; the increment cannot wrap: the counter is tested to be below the maximum before it (or the incremented value is tested before use), failing the RPC otherwise")
 	c.rule(r3, "the stream object reaches the caller only after the new_stream send succeeded; on failure its table entry is removed; the context watcher (which may emit cancel) is started only after that send")
 	w := c.W
 	a := w.Anchors()
@@ -111,11 +111,31 @@ func ruleClientIDs(c *Ctx, r1, r2, r3 string) {
 						continue
 					}
 					k, isK := constInt(y)
-					if isFieldLoad(x, counter) && isK && ((op == token.GEQ && k == 0) || (op == token.GTR && k == -1) || (op == token.NEQ && k == 9223372036854775807) || (op == token.LSS && k == 9223372036854775807)) {
+					// the counter is below the maximum before it is incremented (testing it for >= 0 here would only
+					// notice a counter that has ALREADY wrapped, i.e. after one negative id was used)
+					if isFieldLoad(x, counter) && isK && ((op == token.NEQ && k == 9223372036854775807) || (op == token.LSS && k == 9223372036854775807) || (op == token.LEQ && k == 9223372036854775806)) {
 						guard = true
 					}
 				}
-				c.check(guard, r2, key+": overflow test precedes the increment", w.At(st), "dominated by counter >= 0 (a wrapped counter fails the RPC)", "no overflow test dominates the increment: after 2^63 RPCs ids would wrap to negative/used values")
+				if !guard {
+					// ... or the incremented value is tested before it is used as table key
+					for _, ft := range factsAt(ins) {
+						x, op, y, isCmp := cmpFact(ft)
+						if !isCmp {
+							continue
+						}
+						k, isK := constInt(y)
+						if isK && ((op == token.GEQ && k == 0) || (op == token.GTR && k <= 0 && k >= -1)) {
+							if ld, isL := origin(x).(*ssa.UnOp); isL && isFieldLoad(ld, counter) && dominates(st, ld) {
+								guard = true
+							}
+							if origin(x) == origin(st.Val) {
+								guard = true
+							}
+						}
+					}
+				}
+				c.check(guard, r2, key+": the increment cannot wrap", w.At(st), "counter below the maximum before the increment (or the incremented value tested before use)", "the id counter can be incremented from MaxInt64: the wrapped, negative id is used for one RPC (a test for 'counter < 0' BEFORE the increment only notices the wrap one RPC later); a conforming server refuses the id and ends the tunnel with every in-flight RPC")
 			}
 		}
 	}
